@@ -12,6 +12,7 @@ mod interpose;
 mod maps;
 mod out;
 mod panicobs;
+mod probe;
 mod rng;
 mod scn;
 mod x86;
